@@ -141,6 +141,11 @@ class Stream:
         completed).
         """
 
+        # Tor already said this stream is gone; nothing to do (asking
+        # again gets an error and no further event)
+        if self.state in ('CLOSED', 'FAILED'):
+            return defer.succeed(None)
+
         # someone already called close() but we're not closed yet: the
         # new caller hears about the same closing
         if self._closing_deferred:
